@@ -115,7 +115,8 @@ fn parse_prefix(name: &str, fragment: &yaml::Yaml) -> Result<Option<Prefix>, Err
                     }
                 }
             }
-            let prefix = prefix.unwrap();
+            let prefix = prefix
+                .ok_or_else(|| Error::InvalidConfig(format!("Missing prefix in {}", name)))?;
             Ok(Some(Prefix {
                 addr: prefix.addr,
                 prefixlen: prefix.prefixlen,
